@@ -146,7 +146,7 @@ func disciplineObligations(fn *ssa.Function, name string, fc *FuncContract, enc 
 	}
 	if okNB {
 		// `opt nonblocking`: no channel operation of the function may block
-		for _, b := range fn.Blocks {
+		for _, b := range blocksWithHelpers(fn, enc) {
 			for _, in := range b.Instrs {
 				switch in := in.(type) {
 				case *ssa.UnOp:
@@ -169,7 +169,7 @@ func disciplineObligations(fn *ssa.Function, name string, fc *FuncContract, enc 
 		}
 		return out
 	}
-	for _, b := range fn.Blocks {
+	for _, b := range blocksWithHelpers(fn, enc) {
 		for _, in := range b.Instrs {
 			switch in := in.(type) {
 			case *ssa.UnOp:
@@ -360,5 +360,48 @@ func loopExitObligations(fn *ssa.Function, name string, enc *Enc, exhaustive boo
 			Where:  fmt.Sprintf("%s:%d", shortPath(p.Filename), p.Line),
 			Result: &SolveResult{Status: st, Solver: "ssa-dataflow", All: map[string]string{"ssa-dataflow": st}}})
 	}
+	return out
+}
+
+// blocksWithHelpers: the blocks of fn and of the helpers without a contract that
+// it calls (the ones the executor runs in place): a blocking operation moved
+// into such a helper is still an operation of fn for the blocking discipline.
+func blocksWithHelpers(fn *ssa.Function, enc *Enc) []*ssa.BasicBlock {
+	var out []*ssa.BasicBlock
+	seen := map[*ssa.Function]bool{}
+	var visit func(f *ssa.Function, depth int)
+	visit = func(f *ssa.Function, depth int) {
+		if seen[f] {
+			return
+		}
+		seen[f] = true
+		out = append(out, f.Blocks...)
+		if depth >= maxInlineDepth {
+			return
+		}
+		for _, b := range f.Blocks {
+			for _, in := range b.Instrs {
+				ci, ok := in.(ssa.CallInstruction)
+				if !ok {
+					continue
+				}
+				if _, isGo := in.(*ssa.Go); isGo {
+					continue
+				}
+				callee := ci.Common().StaticCallee()
+				if callee == nil || ci.Common().IsInvoke() || callee.Pkg == nil || len(callee.Blocks) == 0 {
+					continue
+				}
+				if !strings.HasPrefix(callee.Pkg.Pkg.Path(), modPath) || callee.Parent() != nil {
+					continue
+				}
+				if enc.cs.Funcs[shortName(callee)] != nil {
+					continue
+				}
+				visit(callee, depth+1)
+			}
+		}
+	}
+	visit(fn, 0)
 	return out
 }
